@@ -2,6 +2,7 @@ import Driver.Util
 import NutsModel.C20.Strict
 import NutsModel.C20.Outbound
 import NutsModel.C20.Sources
+import NutsModel.C20.Engines
 import NutsModel.Facts.C20
 open Lean Nuts.Drv Nuts.C18 Nuts.C20 Nuts
 
@@ -34,7 +35,7 @@ def configOf (j : Json) : Config :=
   let flagName := ((cli.drop 2).toString.splitOn "=").head!
   { strict := jBool j "strict", url := bytesOf (jStr j "url"), tls := jBool j "tls",
     nuts := methods.contains "nuts", web := methods.contains "web",
-    cryptoStorage := if crypto == "" then .implicit else if ["fs", "vaultkv", "azure-keyvault", "external"].contains crypto then .explicit else .invalid,
+    cryptoStorage := classifyStorage Nuts.Facts.C20.cryptoBackendNames (bytesOf crypto),
     sqlExplicit := jBool j "sql",
     dummy := jBool j "dummy" && hasValidator (bytesOf "dummy") [bytesOf (if jStr j "dummyname" == "" then "dummy" else jStr j "dummyname")], irmaPbdf := jStr j "irma" == "pbdf",
     movedKey := jStr j "legacy" != "", cliFlags := if cli == "" then [] else [bytesOf flagName] }
@@ -148,7 +149,15 @@ def step (st : Unit) (j : Json) : Unit × List String :=
       match load (configOf j) with
       | some (e, r) => s!"load refuse:{e}:{r}"
       | none => "load ok"
-    | "sys" => showOutcome "sys" (jBool j "iammatrix") (configOf j) (start tlds l2s (configOf j))
+    | "sys" =>
+      if jHas j "tlsparts" then
+        -- the three tls.* file options individually (paths of length 9 stand for "configured")
+        let parts := jStr j "tlsparts"
+        let f : TLSFiles := { certLen := if parts.contains 'c' then 9 else 0, keyLen := if parts.contains 'k' then 9 else 0,
+                              trustLen := if parts.contains 't' then 9 else 0 }
+        let cfg := { configOf j with tls := Nuts.Facts.C20.tlsEnabled f.certLen f.keyLen f.trustLen }
+        showOutcome "sys" (jBool j "iammatrix") cfg (startFiles Nuts.Facts.C20.tlsEnabled tlds l2s cfg f)
+      else showOutcome "sys" (jBool j "iammatrix") (configOf j) (start tlds l2s (configOf j))
     | "ctx" =>
       if contextPasses (jBool j "strict") ((jStrs j "allow").map bytesOf) (unhx (jStr j "s")) then "ctx passed" else "ctx refused"
     | "flags" =>
